@@ -1,39 +1,516 @@
 package main
 
 import (
+	"encoding/json"
+	"flag"
 	"fmt"
 	"os"
+	"path/filepath"
+	"runtime"
+	"runtime/debug"
+	"sort"
+	"strconv"
 	"strings"
 	"time"
-
-	"golang.org/x/tools/go/packages"
-	"golang.org/x/tools/go/ssa"
-	"golang.org/x/tools/go/ssa/ssautil"
 )
 
+const verifRoot = "/verif"
+
 func main() {
-	t0 := time.Now()
-	cfg := &packages.Config{Mode: packages.NeedName | packages.NeedFiles | packages.NeedCompiledGoFiles | packages.NeedImports | packages.NeedTypes | packages.NeedTypesSizes | packages.NeedSyntax | packages.NeedTypesInfo | packages.NeedDeps, Dir: "/repo", BuildFlags: []string{"-tags=verif"}}
-	pkgs, err := packages.Load(cfg, ".", "./handler/...", "./storage", "./token/...", "./compose")
-	if err != nil {
-		panic(err)
+	debug.SetGCPercent(gcPercent())
+	debug.SetMemoryLimit(6 << 30)
+	if len(os.Args) < 2 {
+		fmt.Fprintln(os.Stderr, "usage: govc check|func|list ...")
+		os.Exit(2)
 	}
-	fmt.Println("load", time.Since(t0))
-	prog, spkgs := ssautil.AllPackages(pkgs, ssa.GlobalDebug)
-	_ = prog
-	for _, p := range spkgs {
-		if p != nil && strings.HasPrefix(p.Pkg.Path(), "github.com/ory/fosite") {
-			p.Build()
+	if os.Args[1] == "__solverd" {
+		solverdMain()
+		return
+	}
+	startDaemon()
+	switch os.Args[1] {
+	case "check":
+		os.Exit(cmdCheck(os.Args[2:]))
+	case "func":
+		os.Exit(cmdFunc(os.Args[2:]))
+	case "list":
+		os.Exit(cmdList(os.Args[2:]))
+	default:
+		fmt.Fprintln(os.Stderr, "unknown command", os.Args[1])
+		os.Exit(2)
+	}
+}
+
+func setup(repo string, tier string) (*Verifier, error) {
+	v, err := loadVerifier(repo, filepath.Join(verifRoot, "stdlib"))
+	if err != nil {
+		return nil, err
+	}
+	tmp, err := os.MkdirTemp("", "govc")
+	if err != nil {
+		return nil, err
+	}
+	v.tmpdir = tmp
+	v.timeoutMs = 10000
+	if tier == "thorough" {
+		v.timeoutMs = 60000
+		v.agree = true
+	}
+	return v, nil
+}
+
+// labelsOf returns the property ids a contract has clauses for.
+func labelsOf(bc *BoundContract) map[string]bool {
+	out := map[string]bool{}
+	for _, cl := range bc.C.Clauses {
+		if cl.Label != "" {
+			out[strings.SplitN(cl.Label, ".", 2)[0]] = true
 		}
 	}
-	fmt.Println("ssa", time.Since(t0))
-	for _, p := range spkgs {
-		if p == nil {
+	return out
+}
+
+func cmdList(args []string) int {
+	v, err := setup("/repo", "quick")
+	if err != nil {
+		fmt.Fprintln(os.Stderr, err)
+		return 2
+	}
+	defer os.RemoveAll(v.tmpdir)
+	var names []string
+	for n, bc := range v.contracts {
+		ls := labelsOf(bc)
+		var l []string
+		for k := range ls {
+			l = append(l, k)
+		}
+		sort.Strings(l)
+		kind := "func"
+		if bc.C.IsIface {
+			kind = "iface"
+		}
+		if bc.C.Trusted {
+			kind += ",trusted"
+		}
+		names = append(names, fmt.Sprintf("%-8s %-90s %s", kind, n, strings.Join(l, ",")))
+	}
+	sort.Strings(names)
+	fmt.Println(strings.Join(names, "\n"))
+	return 0
+}
+
+// cmdFunc verifies the functions whose name contains the given substring and prints every obligation.
+func cmdFunc(args []string) int {
+	fs := flag.NewFlagSet("func", flag.ExitOnError)
+	dump := fs.String("dump", "", "write SMT scripts of obligations whose name contains this string to /tmp/govc-dump")
+	repo := fs.String("repo", "/repo", "repository root")
+	timeout := fs.Int("timeout", 10000, "per-obligation timeout ms")
+	all := fs.Bool("all", false, "also show pending obligations")
+	fs.Parse(args)
+	tl := time.Now()
+	v, err := setup(*repo, "quick")
+	if err != nil {
+		fmt.Fprintln(os.Stderr, err)
+		return 2
+	}
+	fmt.Fprintf(os.Stderr, "load %v\n", time.Since(tl))
+	defer os.RemoveAll(v.tmpdir)
+	v.timeoutMs = *timeout
+	_ = all
+	bad := 0
+	for _, pat := range fs.Args() {
+		var names []string
+		for n, bc := range v.contracts {
+			if strings.Contains(n, pat) && !bc.C.IsIface && strings.HasPrefix(bc.Func.Pkg().Path(), repoModule) && !bc.C.Trusted {
+				names = append(names, n)
+			}
+		}
+		sort.Strings(names)
+		for _, n := range names {
+			bc := v.contracts[n]
+			res := v.generate(bc)
+			fmt.Printf("== %s  (%d obligations, gen %d ms)\n", n, len(res.Obls), res.Ms)
+			for _, u := range res.Unsup {
+				fmt.Println("   UNSUPPORTED:", u)
+				bad++
+			}
+			for _, u := range res.Notes {
+				fmt.Println("   note:", u)
+			}
+			ts := time.Now()
+			v.solveAll(res.Obls, runtime.NumCPU())
+			fmt.Fprintf(os.Stderr, "solve %v\n", time.Since(ts))
+			for _, o := range res.Obls {
+				mark := "ok  "
+				if o.Res.Status != "unsat" {
+					mark = "FAIL"
+					bad++
+				}
+				fmt.Printf("   %s %-8s %6dms %-7s %s\n", mark, o.Res.Status, o.Res.Ms, o.Res.Solver, o.Name)
+				if o.Res.Status != "unsat" {
+					fmt.Printf("        clause: %s\n", o.Clause)
+				}
+				if *dump != "" && strings.Contains(o.Name, *dump) {
+					os.MkdirAll("/tmp/govc-dump", 0o755)
+					fn := filepath.Join("/tmp/govc-dump", sanitize(o.Name)+".smt2")
+					os.WriteFile(fn, []byte(o.render()), 0o644)
+					fmt.Println("        dumped", fn)
+				}
+			}
+			// vacuity: some return must be reachable
+			if len(res.Covers) > 0 && res.Script != nil {
+				reach := 0
+				for _, cv := range v.coverCheck(res) {
+					if cv == "" {
+						reach++
+					} else {
+						fmt.Printf("   cover: %s unreachable\n", cv)
+					}
+				}
+				fmt.Printf("   covers: %d/%d returns reachable\n", reach, len(res.Covers))
+			}
+		}
+	}
+	if bad > 0 {
+		return 1
+	}
+	return 0
+}
+
+func sanitize(s string) string {
+	return strings.Map(func(r rune) rune {
+		if r >= 'a' && r <= 'z' || r >= 'A' && r <= 'Z' || r >= '0' && r <= '9' || r == '.' || r == '-' || r == '_' || r == '#' || r == '@' {
+			return r
+		}
+		return '_'
+	}, s)
+}
+
+// ---------- check: the registered entry point ----------
+
+type oblReport struct {
+	Name   string `json:"name"`
+	Clause string `json:"clause"`
+	Kind   string `json:"kind"`
+	Result string `json:"result"`
+	Solver string `json:"solver"`
+	Ms     int64  `json:"ms"`
+}
+
+type knownFinding struct {
+	Property   string `json:"property"`
+	Obligation string `json:"obligation"` // obligation name (with site)
+	What       string `json:"what"`
+	Status     string `json:"status"` // known | fixed
+	Commit     string `json:"commit,omitempty"`
+}
+
+func loadKnownFindings() []knownFinding {
+	var out []knownFinding
+	data, err := os.ReadFile(filepath.Join(verifRoot, "known_findings.json"))
+	if err != nil {
+		return nil
+	}
+	json.Unmarshal(data, &out)
+	return out
+}
+
+func cmdCheck(args []string) int {
+	fs := flag.NewFlagSet("check", flag.ExitOnError)
+	prop := fs.String("property", "", "property id, e.g. C12")
+	tier := fs.String("tier", "quick", "quick|thorough")
+	repo := fs.String("repo", "/repo", "repository root")
+	register := fs.Bool("register", false, "record the generated obligation names as the registered set of this property")
+	fs.Parse(args)
+	if os.Getenv("VERIF_TIER") != "" && *tier == "" {
+		*tier = os.Getenv("VERIF_TIER")
+	}
+	seed := 0
+	if s := os.Getenv("VERIF_SEED"); s != "" {
+		seed, _ = strconv.Atoi(s)
+	}
+	t0 := time.Now()
+	evPath := filepath.Join(verifRoot, "evidence", *prop+".json")
+	os.MkdirAll(filepath.Dir(evPath), 0o755)
+	replayDir := filepath.Join(verifRoot, "replays", *prop)
+	os.RemoveAll(replayDir)
+	os.MkdirAll(replayDir, 0o755)
+
+	fail := func(obl string, detail string) int {
+		p := filepath.Join(replayDir, sanitize(obl)+".json")
+		data, _ := json.MarshalIndent(map[string]interface{}{"property": *prop, "obligation": obl, "detail": detail}, "", " ")
+		os.WriteFile(p, data, 0o644)
+		fmt.Printf("VIOLATION property=%s replay=%s no-failing-input-found\n", *prop, p)
+		writeEvidence(evPath, *prop, *tier, seed, nil, nil, nil, []string{detail}, time.Since(t0).Seconds(), 1, 0)
+		return 1
+	}
+	v, err := setup(*repo, *tier)
+	if err != nil {
+		// a tree that no longer loads, or a detached contract, cannot be proved
+		return fail("load", "verifier could not load the tree or its contracts: "+err.Error())
+	}
+	defer os.RemoveAll(v.tmpdir)
+
+	// functions with clauses labelled for this property
+	var targets []*BoundContract
+	for _, bc := range v.contracts {
+		if bc.C.IsIface || bc.C.Trusted || !strings.HasPrefix(bc.Func.Pkg().Path(), repoModule) {
 			continue
 		}
-		if f := p.Func(os.Args[1]); f != nil {
-			f.WriteTo(os.Stdout)
+		if labelsOf(bc)[*prop] {
+			targets = append(targets, bc)
 		}
 	}
-	fmt.Println("done")
+	sort.Slice(targets, func(i, j int) bool { return targets[i].Full < targets[j].Full })
+	registry := loadRegistry()
+	expected := registry[*prop]
+	if len(targets) == 0 && len(expected) == 0 {
+		return fail("none", "no contract clause is labelled "+*prop)
+	}
+	results := make([]*FuncResult, len(targets))
+	done := make(chan int, len(targets))
+	sem := make(chan bool, 8)
+	for i := range targets {
+		go func(i int) {
+			sem <- true
+			results[i] = v.generate(targets[i])
+			<-sem
+			done <- i
+		}(i)
+	}
+	for range targets {
+		<-done
+	}
+	var obls []*Obligation
+	var unclaimed []*Obligation
+	var unsup []string
+	var notes []string
+	trusted := map[string]bool{}
+	var fnames []string
+	for _, r := range results {
+		fnames = append(fnames, r.Func)
+		unsup = append(unsup, r.Unsup...)
+		notes = append(notes, r.Notes...)
+		for _, t := range r.Trusted {
+			trusted[t] = true
+		}
+		for _, o := range r.Obls {
+			if o.Label != "" && !strings.HasPrefix(o.Label, *prop+".") {
+				continue // belongs to another property's check
+			}
+			if o.Pending {
+				unclaimed = append(unclaimed, o)
+				continue
+			}
+			obls = append(obls, o)
+		}
+	}
+	// lemmas
+	lobls, lunsup := v.lemmaObligations(*prop)
+	obls = append(obls, lobls...)
+	unsup = append(unsup, lunsup...)
+	v.solveAll(obls, runtime.NumCPU())
+
+	known := loadKnownFindings()
+	isKnown := func(name string) *knownFinding {
+		for i := range known {
+			if known[i].Property == *prop && known[i].Status == "known" && known[i].Obligation == name {
+				return &known[i]
+			}
+		}
+		return nil
+	}
+	violations := 0
+	discharged := 0
+	var reports []oblReport
+	var solverMs int64
+	byLabel := map[string]int{}
+	var lines []string
+	knownHits := 0
+	for _, o := range obls {
+		reports = append(reports, oblReport{o.Name, o.Clause, o.Kind, o.Res.Status, o.Res.Solver, o.Res.Ms})
+		solverMs += o.Res.Ms
+		byLabel[baseName(o.Name)]++
+		if o.Res.Status == "unsat" {
+			discharged++
+			continue
+		}
+		if kf := isKnown(o.Name); kf != nil {
+			lines = append(lines, fmt.Sprintf("KNOWN-FINDING: property=%s %s [%s]", *prop, kf.What, o.Name))
+			knownHits++
+			continue
+		}
+		violations++
+		p := filepath.Join(replayDir, sanitize(o.Name)+".json")
+		rep := buildReplay(v, *prop, o)
+		data, _ := json.MarshalIndent(rep, "", " ")
+		os.WriteFile(p, data, 0o644)
+		suffix := ""
+		if !rep.Replayed {
+			suffix = " no-failing-input-found"
+		}
+		lines = append(lines, fmt.Sprintf("VIOLATION property=%s replay=%s%s", *prop, p, suffix))
+	}
+	// a function that left the supported subset cannot be claimed
+	for _, u := range unsup {
+		violations++
+		p := filepath.Join(replayDir, fmt.Sprintf("unsupported-%d.json", violations))
+		data, _ := json.MarshalIndent(map[string]interface{}{"property": *prop, "obligation": "unsupported-construct", "detail": u}, "", " ")
+		os.WriteFile(p, data, 0o644)
+		lines = append(lines, fmt.Sprintf("VIOLATION property=%s replay=%s no-failing-input-found", *prop, p))
+	}
+	// registered obligations must still be generated
+	for _, e := range expected {
+		if byLabel[e] == 0 {
+			violations++
+			p := filepath.Join(replayDir, sanitize("missing-"+e)+".json")
+			data, _ := json.MarshalIndent(map[string]interface{}{"property": *prop, "obligation": e, "detail": "registered obligation is no longer generated (contract detached, function renamed or clause removed)"}, "", " ")
+			os.WriteFile(p, data, 0o644)
+			lines = append(lines, fmt.Sprintf("VIOLATION property=%s replay=%s no-failing-input-found", *prop, p))
+		}
+	}
+	for _, l := range lines {
+		fmt.Println(l)
+	}
+	if *register && violations == 0 {
+		var names []string
+		for n := range byLabel {
+			names = append(names, n)
+		}
+		sort.Strings(names)
+		registry[*prop] = names
+		data, _ := json.MarshalIndent(registry, "", " ")
+		os.WriteFile(filepath.Join(verifRoot, "obligations.json"), data, 0o644)
+	}
+	var tb []string
+	for t := range trusted {
+		tb = append(tb, t)
+	}
+	sort.Strings(tb)
+	var extra []string
+	for _, o := range unclaimed {
+		extra = append(extra, o.Name)
+	}
+	wall := time.Since(t0).Seconds()
+	ev := evidenceData{fnames: fnames, reports: reports, trusted: tb, notes: notes, unclaimed: extra, solverMs: solverMs, known: knownHits}
+	writeEvidenceFull(evPath, *prop, *tier, seed, ev, wall, violations, discharged, len(obls))
+	fmt.Printf("%s: %d obligations, %d discharged, %d known findings, %d violations, %d functions, %.1fs\n", *prop, len(obls), discharged, knownHits, violations, len(fnames), wall)
+	if violations > 0 {
+		return 1
+	}
+	return 0
+}
+
+func baseName(obl string) string {
+	if k := strings.Index(obl, "@"); k >= 0 {
+		return obl[:k]
+	}
+	return obl
+}
+
+func loadRegistry() map[string][]string {
+	out := map[string][]string{}
+	data, err := os.ReadFile(filepath.Join(verifRoot, "obligations.json"))
+	if err != nil {
+		return out
+	}
+	json.Unmarshal(data, &out)
+	return out
+}
+
+type evidenceData struct {
+	fnames    []string
+	reports   []oblReport
+	trusted   []string
+	notes     []string
+	unclaimed []string
+	solverMs  int64
+	known     int
+}
+
+var standingAssumptions = []string{
+	"machine integers are treated as mathematical integers (no overflow)",
+	"bodies of standard-library and third-party functions are replaced by the contracts in /verif/stdlib/*.spec (each listed in trusted_base)",
+	"interface method contracts are assumed at every dynamic call (listed in trusted_base); they are proved only of the repo implementations that have an implements duty",
+	"termination, panics other than the swept ones and memory exhaustion are not verified",
+	"a non-nil interface holding a nil pointer is identified with a nil interface",
+	"slices are immutable values; sub-slices do not alias their parent",
+	"cryptographic primitives are uninterpreted functions",
+}
+
+func writeEvidence(path, prop, tier string, seed int, fnames []string, reports []oblReport, trusted []string, notes []string, wall float64, violations, discharged int) {
+	writeEvidenceFull(path, prop, tier, seed, evidenceData{fnames: fnames, reports: reports, trusted: trusted, notes: notes}, wall, violations, discharged, len(reports))
+}
+
+func writeEvidenceFull(path, prop, tier string, seed int, ev evidenceData, wall float64, violations, discharged, total int) {
+	samples := []interface{}{}
+	for i, r := range ev.reports {
+		if i >= 5 {
+			break
+		}
+		samples = append(samples, r)
+	}
+	if len(samples) == 0 {
+		samples = append(samples, "no obligation generated")
+	}
+	if ev.trusted == nil {
+		ev.trusted = []string{}
+	}
+	cov := map[string]interface{}{
+		"obligations":              total,
+		"discharged":               discharged,
+		"checker_cmd":              fmt.Sprintf("bin/govc check --property %s --tier %s (VCs over go/ssa of /repo's current tree; z3-new 5.1.0 / z3 4.8.12 / cvc5 1.0.3)", prop, tier),
+		"trusted_base":             ev.trusted,
+		"samples":                  samples,
+		"functions_under_contract": ev.fnames,
+		"obligation_results":       ev.reports,
+		"unclaimed_obligations":    ev.unclaimed,
+		"solver_ms_total":          ev.solverMs,
+		"known_findings_hit":       ev.known,
+		"engine_notes":             ev.notes,
+	}
+	if tier != "quick" && tier != "thorough" {
+		tier = "quick"
+	}
+	out := map[string]interface{}{
+		"property_id": prop,
+		"tier":        tier,
+		"seed":        seed,
+		"level":       "proof",
+		"coverage":    cov,
+		"assumptions": standingAssumptions,
+		"wall_s":      wall,
+		"violations":  violations,
+	}
+	data, _ := json.MarshalIndent(out, "", " ")
+	os.WriteFile(path, data, 0o644)
+}
+
+// coverCheck returns, per return site, "" if it may be reachable or its name if the
+// assumptions in force make it unreachable (vacuity signal).
+func (v *Verifier) coverCheck(res *FuncResult) []string {
+	out := make([]string, len(res.Covers))
+	done := make(chan bool, len(res.Covers))
+	for i, cv := range res.Covers {
+		go func(i int, cv *Cover) {
+			view := res.Script.render([]string{cv.Reach.S}, nil)
+			r := solve(view, v.tmpdir, 1500, false)
+			if r.Status == "unsat" {
+				out[i] = cv.Name
+			}
+			done <- true
+		}(i, cv)
+	}
+	for range res.Covers {
+		<-done
+	}
+	return out
+}
+
+func gcPercent() int {
+	if s := os.Getenv("GOVC_GC"); s != "" {
+		n, _ := strconv.Atoi(s)
+		return n
+	}
+	return 800
 }
